@@ -189,6 +189,11 @@ def coq_val(T, v):
 # ---------------------------------------------------------------------------------------------
 # abstract content of a pyasn1 object, never calling pyasn1's __eq__ / prettyPrint
 
+_KIND_CLASS = {'real': univ.Real, 'bits': univ.BitString, 'bool': univ.Integer, 'int': univ.Integer, 'enum': univ.Integer,
+               'oid': univ.ObjectIdentifier, 'null': univ.Null, 'any': univ.OctetString, 'octs': univ.OctetString,
+               'str': univ.OctetString}
+
+
 def absval(obj, T):
     """Abstract content tree of a pyasn1 value object against descriptor T (twin of Coq `abs`)."""
     b = base_desc(T)
@@ -227,6 +232,9 @@ def absval(obj, T):
         return ('bag' if k == 'setof' else 'list', tuple(items))
     if not getattr(obj, 'isValue', False):
         return ('bad', 'novalue')
+    want = _KIND_CLASS.get(k)
+    if want is not None and not isinstance(obj, want):
+        return ('bad', 'class:' + type(obj).__name__)       # an object of another ASN.1 class is not a value of T
     if k == 'real':
         r = real_of_obj(obj)
         if r == 'inf': return ('real', 'pinf')
